@@ -56,9 +56,60 @@ def r1_best(repo, report):
         raise Unrecognised("MultipleAdapters.match_to: best variable (initialised None, returned) not found", repo.loc(fn))
     ps = params(fn)
     env = {"self": Obj("self", nonnull=True), ps[1]: Obj("SEQ"), best: Obj("BEST"), lp.target.id: Obj("ADAPTER", nonnull=True)}
+    # Values carried from one iteration to the next besides the best match itself (e.g. its score kept in a local):
+    # a name assigned in the loop body whose value at the START of an iteration is read on some path.
+    assigned = sorted({n.id for st in lp.body for n in ast.walk(st) if isinstance(n, ast.Name) and isinstance(n.ctx, ast.Store)} - {best, lp.target.id})
+    probe_env = dict(env)
+    for v in assigned:
+        probe_env[v] = Obj(f"CARRIED_{v}")
+    probe = explore(repo, lp.body, probe_env, call_hook=_cur_hook, inline=False, loop_mode="forbid")
+    carried = [v for v in assigned if any(f"CARRIED_{v}" in k for r in probe for k in r.valuation)]
+    if carried:
+        # each carried value must be a faithful copy of one attribute of the best match: refreshed on EVERY path that
+        # replaces the best match, untouched otherwise.  Then it can be read as BEST.<attribute>.
+        stale = []
+        for v in carried:
+            attrs = set()
+            for r in probe:
+                now = vkey(r.env.get(v))
+                replaced = vkey(r.env[best]) == "CUR"
+                if replaced:
+                    if now == f"CARRIED_{v}":
+                        # not assigned on this path: fine iff the path condition says it already equals the new match's value
+                        eq = [k for k, val in r.valuation.items() if k.startswith("sign:") and val == 0 and f"CARRIED_{v}" in k and k.count("CUR.") == 1]
+                        if len(eq) == 1:
+                            m_ = re.search(r"CUR\.(\w+)", eq[0])
+                            rest = eq[0][5:].replace(m_.group(0), "").replace(f"CARRIED_{v}", "")
+                            if rest.strip("-+ ") == "":
+                                now = m_.group(0)
+                    attrs.add(now)
+                elif now != f"CARRIED_{v}":
+                    stale.append({"variable": v, "problem": "changed although the best match is kept", "value": now})
+            good = {a for a in attrs if a.startswith("CUR.")}
+            if len(attrs) != 1 or not good:
+                stale.append({"variable": v, "problem": "not refreshed on every path that replaces the best match", "values_when_replaced": sorted(attrs)})
+            else:
+                env[v] = Obj("BEST." + next(iter(good))[4:])
+        report.ob("C09.R1", "MultipleAdapters.match_to: values cached from the best match follow it", not stale, facts={"carried": carried, "problems": stale[:3]},
+                  expected="a local that holds the score/errors of the best match is assigned on every path that assigns the best match", loc=repo.loc(lp),
+                  why=(f"{stale[0]['variable']}: {stale[0]['problem']}: later adapters are compared with the values of an earlier best match" if stale else ""))
+        if stale:
+            carried = []
+            env = {"self": Obj("self", nonnull=True), ps[1]: Obj("SEQ"), best: Obj("BEST"), lp.target.id: Obj("ADAPTER", nonnull=True)}
+        # first iteration: the cached values still have their initial contents; the first match must be taken whatever they are
+        first_env = dict(env)
+        first_env[best] = Const(None)
+        for v in (carried if not stale else []):
+            pre = [st for st in fn.body if isinstance(st, ast.Assign) and any(isinstance(t, ast.Name) and t.id == v for t in st.targets) and isinstance(st.value, ast.Constant)]
+            first_env[v] = Const(pre[-1].value.value) if pre else Obj(f"UNBOUND_{v}")
+        frows = explore(repo, lp.body, first_env, call_hook=_cur_hook, inline=False, loop_mode="forbid") if not stale else []
+        fbad = [r.describe()["valuation"] for r in frows if (r.valuation.get("isnone:CUR") is True) != (vkey(r.env[best]) != "CUR")]
+        report.ob("C09.R1", "MultipleAdapters.match_to: the first match found is taken", not fbad, facts={"rows": len(frows), "problems": fbad[:2]}, expected="with no best match yet, any match becomes the best match", loc=repo.loc(lp))
+        if not stale:
+            env[best] = Obj("BEST", nonnull=True)
     rows = explore(repo, lp.body, env, call_hook=_cur_hook, inline=False, loop_mode="forbid")
     report.saw(function="MultipleAdapters.match_to", file=cls.module.relpath, valuations=len(rows))
-    roles = {"miss": Bool("isnone:CUR"), "first": Bool("isnone:BEST"),
+    roles = {"miss": Bool("isnone:CUR"), "first": Bool("isnone:BEST", values=(False,)) if carried else Bool("isnone:BEST"),
              "ds": Sign(Lin.atom("CUR.score") - Lin.atom("BEST.score")), "de": Sign(Lin.atom("CUR.errors") - Lin.atom("BEST.errors"))}
 
     def outcome(r):
